@@ -816,16 +816,19 @@ func main() {
 	r.Assume("controlled programs have at most 4 threads and 10 operations; free-running histories at most 8 goroutines and 22 operations")
 	r.Assume("a failed Push/Pop is accepted when its recorded interval intersects another operation's interval (the property's own excuse)")
 	sched.JitterOn = os.Getenv("VERIF_JITTER") == "1"
-	if ok, why := ringseek.Usable(2); !ok && !r.IsChild() {
+	seekOK, why := ringseek.Usable(2)
+	if !seekOK && !r.IsChild() {
 		r.Add("seek_unusable", 1)
-		fmt.Println("note: counter seek unusable:", why)
+		fmt.Println("note: counter seek unusable (" + why + "); rotations around the 2^32 wrap are reached by honest runs of 2^32 push/pop pairs instead (about two minutes)")
 	}
 
 	r.Cases("bigcap", len(bigCaps), ev.Opt{Workers: 4, HangViolation: true}, bigCapCase)
 	nctl := r.N(60000, 3000000)
 	r.CasesProc("ctl", nctl, ev.Opt{Bin: "shim", Procs: 14}, ctlCase)
-	if r.Thorough() {
+	if r.Thorough() || !seekOK {
 		r.Cases("honest-wrap", 6, ev.Opt{MaxCaseSeconds: 3000}, honestWrapCase)
+	}
+	if r.Thorough() {
 		r.CasesProc("sweep", sweepN, ev.Opt{Bin: "shim", Procs: 14}, sweepCase)
 	}
 	nfree := r.N(6000, 120000)
